@@ -2,6 +2,7 @@ package net
 
 import (
 	"fmt"
+	"github.com/basecomplextech/baselibrary/async"
 	"net"
 	"sync"
 	"sync/atomic"
@@ -90,6 +91,12 @@ func (b *backoffMon) hook(name string, a, bb, c int64) {
 	switch name {
 	case "client.conns", "client.backoff":
 		activityOf(c).Add(1)
+		if name == "client.conns" {
+			// a connection was established: the run of failures of this client is over
+			b.mu.Lock()
+			delete(b.last, c)
+			b.mu.Unlock()
+		}
 	case "client.conn.slow", "client.onConnClosed", "client.close":
 		activityOf(a).Add(1)
 	}
@@ -112,6 +119,9 @@ func (b *backoffMon) hook(name string, a, bb, c int64) {
 		timeout time.Duration
 		at      time.Time
 	}{a, time.Duration(bb), now}
+	if ok && a != prev.attempt+1 && cur.timeout < prev.timeout && len(b.bad) < 5 {
+		b.bad = append(b.bad, fmt.Sprintf("back-off restarted within a run of failures (no connection was established in between): attempt %d -> %v, then attempt %d -> %v", prev.attempt, prev.timeout, a, cur.timeout))
+	}
 	if ok && a == prev.attempt+1 {
 		if cur.timeout < prev.timeout && len(b.bad) < 5 {
 			b.bad = append(b.bad, fmt.Sprintf("back-off decreased within a run of failures: attempt %d -> %v, attempt %d -> %v", prev.attempt, prev.timeout, a, cur.timeout))
@@ -459,7 +469,97 @@ func C19(c *runner.Cfg) *report.Result {
 	if c.Thorough() {
 		wait = 6 * time.Second
 	}
+	// meanwhile: clients with two connection slots. (a) the second connection cannot be dialled (the
+	// server stopped listening, the first connection survives) and then the first connection dies in
+	// the middle of that run of failures: the back-off must go on, not restart; (b) the user closes
+	// one of two listed connections and then the client at once: every connection must end up closed.
+	var side sync.WaitGroup
+	for k := 0; k < c.N(4, 16); k++ {
+		side.Add(1)
+		go func(k int) {
+			defer side.Done()
+			px, err := netx.NewProxy(addr)
+			if err != nil {
+				return
+			}
+			defer px.Close()
+			o := Opts(0, 0, 0, 0, false)
+			o.ClientMaxConns, o.ClientConnChannels, o.ClientDialTimeout = 2, 2, 300*time.Millisecond
+			bm.mu.Lock()
+			cl := mpx.NewClient(px.Addr(), mpx.ClientMode_AutoConnect, logger, o)
+			ptr := int64((*[2]uintptr)(unsafe.Pointer(&cl))[1])
+			bm.watch[ptr] = true
+			bm.mu.Unlock()
+			unwatch := func() { bm.mu.Lock(); delete(bm.watch, ptr); bm.mu.Unlock() }
+			defer cl.Close()
+			defer unwatch()
+			conn, st := cl.Conn(async.TimeoutContext(Watchdog / 2))
+			if !st.OK() {
+				return
+			}
+			w := map[string]any{"stream": "C19/two-slots", "index": k}
+			if k%2 == 0 {
+				px.OutageKeep()
+				var held []mpx.Channel
+				for i := 0; i < 2; i++ { // reaching the channel target makes the client dial a second connection
+					if ch, st := conn.Channel(noCtx); st.OK() {
+						ch.Send(noCtx, []byte("hold"))
+						held = append(held, ch)
+					}
+				}
+				time.Sleep(700 * time.Millisecond) // attempts with 50, 150, 350 ms of back-off
+				px.KillAll(true)                   // the first connection dies in the middle of the run
+				time.Sleep(1400 * time.Millisecond) // the pending 750 ms back-off and the attempts after it
+				for _, ch := range held {
+					ch.Free()
+				}
+				res.Count("two_slot_clients_losing_their_connection_during_a_run_of_failed_dials", 1)
+				px.Restore()
+				return
+			}
+			var held []mpx.Channel
+			for i := 0; i < 2; i++ {
+				if ch, st := conn.Channel(noCtx); st.OK() {
+					ch.Send(noCtx, []byte("hold"))
+					held = append(held, ch)
+				}
+			}
+			if !Settle(Watchdog/4, func() bool { live, _ := mpx.VerifClientConns(cl); return live >= 2 }) {
+				return
+			}
+			// many open channels make the teardown of the closed connection slow, so that Client.Close
+			// finds it still listed
+			var extra []mpx.Channel
+			for i := 0; i < 3000; i++ {
+				if ch, st := conn.Channel(noCtx); st.OK() {
+					extra = append(extra, ch)
+				}
+			}
+			defer func() {
+				for _, ch := range extra {
+					runner.Catch(func() { ch.Free() })
+				}
+			}()
+			conn.Close() // the user closes one of the two listed connections ...
+			unwatch()
+			st = cl.Close() // ... and the client right away
+			if !st.OK() {
+				res.Violate("c19:close-failed", fmt.Sprintf("Client.Close returned %v right after the user closed one of its two connections", st), w)
+			}
+			if !Settle(Watchdog/4, func() bool { return px.Open() == 0 }) {
+				res.Violate("c19:connection-left-open-after-close", fmt.Sprintf("%d connection(s) still open at the proxy after Client.Close (the user had closed one of the two connections just before)", px.Open()), w)
+			}
+			if cl.Connected().IsSet() || !cl.Disconnected().IsSet() {
+				res.Violate("c19:flags-after-close", fmt.Sprintf("after Close: Connected=%v Disconnected=%v", cl.Connected().IsSet(), cl.Disconnected().IsSet()), w)
+			}
+			res.Count("two_slot_clients_closed_after_user_closed_a_connection", 1)
+			for _, ch := range held {
+				runner.Catch(func() { ch.Free() })
+			}
+		}(k)
+	}
 	time.Sleep(wait)
+	WaitTimeout(&side, Watchdog)
 	bm.mu.Lock()
 	bm.watch = map[int64]bool{}
 	bm.mu.Unlock()
